@@ -2,19 +2,16 @@
     their soundness, so that the hypotheses of the composition theorems can be discharged by computation on
     concrete cuts (non-vacuity examples; the canonical graphs [template_of] / [base_of]). *)
 From Coq Require Import String.
-From Coq Require Import List Ascii ZArith Bool Lia.
+From Coq Require Import List Ascii ZArith Bool Lia Permutation.
 From CGV Require Import Base.PyBase Base.PyVal Base.NxGraph Resolve.Bonding Resolve.BondingDefs Resolve.BondingCheck
      Resolve.CutCheck Resolve.CutBonding Resolve.GraphOps.
 From CGV Require Import Compose.PyEq Compose.CutModel Compose.CutPos.
+From CGV Require Export Compose.CutSpecDefs.
 Import ListNotations.
 Open Scope Z_scope.
 
-Definition oeqb (a b : option pyval) : bool :=
-  match a, b with Some x, Some y => pyval_eqb x y | None, None => true | _, _ => false end.
 Lemma oeqb_sound a b : oeqb a b = true -> a = b.
 Proof. destruct a, b; cbn; try discriminate; [intros H; f_equal; now apply pyval_eqb_sound|reflexivity]. Qed.
-Fixpoint zlist_eqb (a b : list Z) : bool :=
-  match a, b with [], [] => true | x :: a', y :: b' => Z.eqb x y && zlist_eqb a' b' | _, _ => false end.
 Lemma zlist_eqb_sound a : forall b, zlist_eqb a b = true -> a = b.
 Proof.
   induction a as [|x a IH]; intros [|y b]; cbn; try discriminate; [reflexivity|]. intros H. apply andb_true_iff in H as [H1 H2].
@@ -29,8 +26,6 @@ Lemma aget_in k a v : aget k a = Some v -> In (k, v) a.
 Proof.
   induction a as [|[k' v'] r IH]; cbn; [discriminate|]. destruct (str_eqb_spec k k') as [->|N]; [intros H; inversion H; now left|right; auto].
 Qed.
-Definition pair_distinctb (e e' : Z * Z) : bool :=
-  negb ((Z.eqb (fst e) (fst e') && Z.eqb (snd e) (snd e')) || (Z.eqb (fst e) (snd e') && Z.eqb (snd e) (fst e'))).
 Lemma unordered_nodupb_sound l : pairwise_b pair_distinctb l = true -> unordered_nodup l.
 Proof.
   unfold unordered_nodup. induction l as [|e r IH]; cbn; [constructor|]. intros H. apply andb_true_iff in H as [H1 H2].
@@ -45,59 +40,42 @@ Proof.
   unfold cbond_eqb. intros H. repeat (apply andb_true_iff in H as [H ?]).
   destruct b, b'; cbn in *. apply Z.eqb_eq in H. apply Z.eqb_eq in H3. apply pyval_eqb_sound in H2. apply str_eqb_eq in H1. apply Bool.eqb_prop in H0. now subst.
 Qed.
+Lemma remove_first_perm x : forall b b', remove_first str_eqb x b = Some b' -> Permutation b (x :: b').
+Proof.
+  induction b as [|y r IH]; cbn; intros b' H; [discriminate|]. destruct (str_eqb_spec x y) as [->|N]; [inversion H; reflexivity|].
+  destruct (remove_first str_eqb x r) as [r'|]; [|discriminate]. inversion H; subst. rewrite (IH r' eq_refl). apply perm_swap.
+Qed.
+Lemma str_perm_b_sound a : forall b, str_perm_b a b = true -> Permutation a b.
+Proof.
+  induction a as [|x r IH]; intros b H; cbn in H; [destruct b; [constructor|discriminate]|].
+  destruct (remove_first str_eqb x b) as [b'|] eqn:E; [|discriminate]. rewrite (remove_first_perm _ _ _ E). constructor. now apply IH.
+Qed.
 Theorem wf_cutb_sound C : wf_cutb C = true -> wf_cut C.
 Proof.
-  unfold wf_cutb. intros H. repeat (apply andb_true_iff in H as [H ?]). rewrite forallb_forall in *.
+  unfold wf_cutb. intros H.
+  apply andb_true_iff in H as [H Hdord]. apply andb_true_iff in H as [H Hdig]. apply andb_true_iff in H as [H Hlab].
+  apply andb_true_iff in H as [H Hsimple]. apply andb_true_iff in H as [H Hends]. apply andb_true_iff in H as [H Hat2]. apply andb_true_iff in H as [Hnd Hat1].
+  rewrite forallb_forall in Hdord, Hdig, Hends, Hat1, Hat2.
   constructor.
   - now apply nodupzb_sound.
   - intros x. split; intros Hx; apply zmem_In; auto.
-  - intros b Hb. specialize (H3 b Hb). apply andb_true_iff in H3 as [H3 N]. apply andb_true_iff in H3 as [A B'].
+  - intros b Hb. specialize (Hends b Hb). apply andb_true_iff in Hends as [H3 N]. apply andb_true_iff in H3 as [A B'].
     apply zmem_In in A. apply zmem_In in B'. apply negb_true_iff in N. apply Z.eqb_neq in N. auto.
-  - clear - H2. induction (c_bonds C) as [|b r IH]; cbn in H2; [constructor|]. apply andb_true_iff in H2 as [A B']. constructor; [|auto].
+  - clear - Hsimple. induction (c_bonds C) as [|b r IH]; cbn in Hsimple; [constructor|]. apply andb_true_iff in Hsimple as [A B']. constructor; [|auto].
     rewrite forallb_forall in A. rewrite Forall_forall. intros b' Hb' S. specialize (A b' Hb'). apply negb_true_iff in A. unfold same_endsb in A.
     destruct S as [[E1 E2]|[E1 E2]]; rewrite E1, E2, !Z.eqb_refl in A; cbn in A; [discriminate|rewrite orb_true_r in A; discriminate].
   - now apply nodup_strs_sound.
-  - intros b Hb. specialize (H0 b Hb). destruct (digit_of (cb_ord b)); [discriminate|discriminate].
+  - intros b Hb. specialize (Hdig b Hb). destruct (digit_of (cb_ord b)); [discriminate|discriminate].
+  - intros kv Hkv. apply str_perm_b_sound. now apply Hdord.
 Qed.
 
 (** ---------------------------------------------------------------- is_template *)
-Definition tattrs_okb (C : cut) (name : pystr) (x : Z) (a : attrs) : bool :=
-  oeqb (aget (S "fragid") a) (Some (VInt 0)) && oeqb (aget (S "fragname") a) (Some (VStr name))
-  && oeqb (aget (S "bonding") a) (bonding_val (descs C x)) && oeqb (aget (S "ez_isomer_atoms") a) None
-  && oeqb (aget (S "aromatic") a) (aget (S "aromatic") (payload C x)) && oeqb (aget (S "rs_isomer") a) None
-  && forallb (fun kv => str_in (fst kv) reserved || oeqb (aget (fst kv) a) (aget (fst kv) (payload C x))) (payload C x).
 Lemma tattrs_okb_sound C name x a : tattrs_okb C name x a = true -> tattrs_ok C name x a.
 Proof.
   unfold tattrs_okb. intros H. repeat (apply andb_true_iff in H as [H ?]). constructor; try (now apply oeqb_sound).
   intros key v Hv Hr. rewrite forallb_forall in H0. specialize (H0 _ (aget_in _ _ _ Hv)). cbn [fst] in H0.
   apply orb_true_iff in H0 as [R|E]; [exfalso; apply Hr; now apply str_in_In|]. apply oeqb_sound in E. congruence.
 Qed.
-
-Definition edge_okb (C : cut) (xs : list Z) (e : Z * Z * attrs) : bool :=
-  let '(i, j, d) := e in
-  (0 <=? i) && (0 <=? j) &&
-  match nth_error xs (Z.to_nat i), nth_error xs (Z.to_nat j) with
-  | Some x, Some y =>
-      match find_bond C x y with
-      | Some b => oeqb (aget (S "order") d) (Some (cb_ord b)) && oeqb (aget (S "bonding") d) None && nodup_strs (map fst d)
-      | None => false
-      end
-  | _, _ => false
-  end.
-Definition is_templateb (C : cut) (name : pystr) (xs : list Z) (T : graph) : bool :=
-  zlist_eqb (node_keys T) (map Z.of_nat (seq 0 (length xs)))
-  && forallb (fun ix => match node_attrs T (Z.of_nat (fst ix)) with Ok a => tattrs_okb C name (snd ix) a | Err _ => false end)
-             (combine (seq 0 (length xs)) xs)
-  && forallb (edge_okb C xs) (edges_data T)
-  && pairwise_b pair_distinctb (edges_list T)
-  && forallb (fun ni => forallb (fun nj =>
-       match nth_error xs ni, nth_error xs nj with
-       | Some x, Some y =>
-           forallb (fun b => negb (Z.eqb (cb_u b) x && Z.eqb (cb_v b) y)
-                             || existsb (fun e => (Z.eqb (fst e) (Z.of_nat ni) && Z.eqb (snd e) (Z.of_nat nj))
-                                                  || (Z.eqb (fst e) (Z.of_nat nj) && Z.eqb (snd e) (Z.of_nat ni))) (edges_list T)) (c_bonds C)
-       | _, _ => true
-       end) (seq 0 (length xs))) (seq 0 (length xs)).
 
 Lemma combine_seq_nth {A} (l : list A) : forall k i x, nth_error l i = Some x -> In ((k + i)%nat, x) (combine (seq k (length l)) l).
 Proof.
@@ -129,20 +107,6 @@ Proof.
 Qed.
 
 (** ---------------------------------------------------------------- is_base *)
-Definition is_baseb (C : cut) (B : graph) : bool :=
-  let P := length (c_parts C) in
-  zlist_eqb (node_keys B) (map Z.of_nat (seq 0 P))
-  && forallb (fun ip => match node_attrs B (Z.of_nat (fst ip)) with
-                        | Ok a => oeqb (aget (S "fragname") a) (Some (VStr (fst (snd ip))))
-                        | Err _ => false end) (combine (seq 0 P) (c_parts C))
-  && forallb (fun e => let '(a, b, d) := e in
-                (0 <=? a) && (0 <=? b) && negb (Z.eqb a b) && (a <? Z.of_nat P) && (b <? Z.of_nat P)
-                && oeqb (aget (S "order") d) (Some (VInt (Z.of_nat (length (cutpairs C (Z.to_nat a) (Z.to_nat b))))))) (edges_data B)
-  && pairwise_b pair_distinctb (edges_list B)
-  && forallb (fun b => existsb (fun e => (Z.eqb (fst e) (Z.of_nat (owner C (cb_u b))) && Z.eqb (snd e) (Z.of_nat (owner C (cb_v b))))
-                                         || (Z.eqb (fst e) (Z.of_nat (owner C (cb_v b))) && Z.eqb (snd e) (Z.of_nat (owner C (cb_u b)))))
-                               (edges_list B)) (cuts C).
-
 Theorem is_baseb_sound C B : is_baseb C B = true -> is_base C B.
 Proof.
   unfold is_baseb. intros H. repeat (apply andb_true_iff in H as [H ?]). rewrite forallb_forall in *. constructor.
@@ -157,8 +121,6 @@ Proof.
     apply orb_true_iff in E as [E|E]; apply andb_true_iff in E as [E1 E2]; apply Z.eqb_eq in E1; apply Z.eqb_eq in E2; subst; auto.
 Qed.
 
-Definition templates_okb (C : cut) (fd : fragdict) : bool :=
-  forallb (fun p => match fd_get (fst p) fd with Some T => is_templateb C (fst p) (snd p) T | None => false end) (c_parts C).
 Theorem templates_okb_sound C fd : templates_okb C fd = true -> templates_ok C fd.
 Proof.
   unfold templates_okb, templates_ok. rewrite forallb_forall. intros H name xs Hin. specialize (H _ Hin). cbn [fst snd] in H.
